@@ -185,6 +185,11 @@ fn split_markup(rng: &mut Rng, words: &[String]) -> Vec<Node> {
                     if t == "a" {
                         e.attrs.push(("href".into(), format!("/{}", rng.below(100))));
                     }
+                    // an id puts a zero-width fragment marker where the element starts,
+                    // possibly in the middle of a word: it is not a place to break the line
+                    if rng.chance(1, 6) {
+                        e.attrs.push(("id".into(), format!("m{}", rng.below(1000))));
+                    }
                     nodes.push(e.node());
                 }
                 None => nodes.append(buf),
@@ -251,9 +256,10 @@ fn split_markup(rng: &mut Rng, words: &[String]) -> Vec<Node> {
             if cut < chars.len() {
                 buf.push(Node::Word(chars[..cut].iter().collect()));
                 flush(&mut nodes, &mut buf, &mut open, rng);
-                match rng.below(3) {
+                match rng.below(4) {
                     0 => nodes.push(Node::Comment("x".into())),
                     1 => open = Some(*rng.pick(&tags)),
+                    2 => nodes.push(El::new("a").attr("name", &format!("n{}", rng.below(1000))).node()),
                     _ => {}
                 }
                 buf.push(Node::Word(chars[cut..].iter().collect()));
@@ -474,7 +480,10 @@ fn run_words(out: &mut CaseOut, rng: &mut Rng, words: &[String], widths: &[usize
     // variant 4: inside one prefixed block
     {
         let w = *rng.pick(widths);
-        let (doc, pw): (Vec<Node>, usize) = match rng.below(4) {
+        // (a fifth of the quotes are rendered by a custom decorator whose quote prefix is
+        // two columns wide but three or four bytes long)
+        let custom_quote = rng.chance(1, 5);
+        let (doc, pw): (Vec<Node>, usize) = match if custom_quote { 0 } else { rng.below(4) } {
             0 => (vec![El::with("blockquote", text_nodes.clone()).node()], 2),
             1 => (
                 vec![El::with("ul", vec![El::with("li", text_nodes.clone()).node()]).node()],
@@ -489,10 +498,17 @@ fn run_words(out: &mut CaseOut, rng: &mut Rng, words: &[String], widths: &[usize
         if w > pw {
             let eff = w - pw;
             let bytes = ast::serialize(&doc, &mut Fmt::canonical());
-            let cfg = Cfg::plain_nd();
+            let (cfg, pchars) = if custom_quote {
+                let mut spec = CustomSpec::ascii();
+                spec.quote = rng.pick(&["\u{2502} ", "\u{ff1e}"]).to_string();
+                let n = spec.quote.chars().count();
+                (Cfg::new(Deco::Custom(spec)), n)
+            } else {
+                (Cfg::plain_nd(), pw)
+            };
             let g = lines_of(render_string(&cfg, &bytes, w)).map(|ls: Vec<String>| {
                 ls.iter()
-                    .map(|l| l.chars().skip(pw).collect::<String>())
+                    .map(|l| l.chars().skip(pchars).collect::<String>())
                     .collect()
             });
             out.evals += 1;
